@@ -298,6 +298,11 @@ func (c *Ctx) finish(verifDir string, seed int, wall float64, explanation string
 	}
 	fmt.Printf("%s %s: %d obligations (%d discharged, %d assumed, %d known findings, %d violated, %d undecided) over %d functions, %d rules, %.1fs\n",
 		c.Prop, c.Tier, total, nOK, nAss, nKnown, nViol, nUnd, len(fns), len(c.Instances), wall)
+	if os.Getenv("SIPVET_VERBOSE") != "" {
+		for _, o := range c.Obls {
+			fmt.Printf("  [%s] %s:%s @%s  %s\n", o.Status, o.Rule, o.Key, o.Pos, o.Detail)
+		}
+	}
 	sort.SliceStable(lines, func(i, j int) bool { return false })
 	for _, l := range lines {
 		fmt.Println(l)
